@@ -290,23 +290,25 @@ Proof.
   - first [ split; [exact (fun s p n => substr_positive s p n) | vm_compute; discriminate] | absurd_branch E ].
 Qed.
 
-(** soundex (the Python UDF): with the standard table and the H / W rule it is Spark's soundex on every string that
-    starts with a letter; without the rule Ashcraft is coded A226 *)
+(** soundex (the Python UDF registered as SOUNDEX): with the standard table, the H / W rule and the early return for a
+    first character that is not a letter it is Spark's UTF8String.soundex on EVERY string; without the early return only
+    on strings that start with a letter; without the H / W rule Ashcraft is coded A226 *)
 Definition C17_verdict_soundex_statement : Prop :=
-  if soundex_cfg_ok c17_soundex
-  then forall s, starts_with_letter s = true -> duck_soundex c17_soundex s = spark_soundex s
-  else duck_soundex c17_soundex [65; 115; 104; 99; 114; 97; 102; 116] <> spark_soundex [65; 115; 104; 99; 114; 97; 102; 116].
+  if soundex_cfg_exact c17_soundex
+  then forall s, duck_soundex c17_soundex s = spark_soundex s
+  else if soundex_cfg_ok c17_soundex
+       then (forall s, starts_with_letter s = true -> duck_soundex c17_soundex s = spark_soundex s) /\
+            duck_soundex c17_soundex [49; 97; 98] <> spark_soundex [49; 97; 98]
+       else duck_soundex c17_soundex [65; 115; 104; 99; 114; 97; 102; 116] <> spark_soundex [65; 115; 104; 99; 114; 97; 102; 116].
 Theorem C17_verdict_soundex : C17_verdict_soundex_statement.
 Proof.
-  unfold C17_verdict_soundex_statement. destruct (soundex_cfg_ok c17_soundex) eqn:E.
-  - exact (soundex_ok c17_soundex E).
-  - first [ vm_compute; discriminate | absurd_branch E ].
+  unfold C17_verdict_soundex_statement. destruct (soundex_cfg_exact c17_soundex) eqn:E.
+  - exact (soundex_exact c17_soundex E).
+  - destruct (soundex_cfg_ok c17_soundex) eqn:E2.
+    + first [ split; [exact (soundex_ok c17_soundex E2) | vm_compute; discriminate] | absurd_branch E ].
+    + first [ vm_compute; discriminate | absurd_branch E2 ].
 Qed.
 Print Assumptions C17_verdict_soundex.
-(** for a first character that is not a letter Spark returns its input unchanged; the Python function does not *)
-Theorem C17_refuted_soundex_non_letter_first :
-  duck_soundex c17_soundex [49; 97; 98] <> spark_soundex [49; 97; 98] /\ spark_soundex [49; 97; 98] = [49; 97; 98].
-Proof. split; vm_compute; [discriminate | reflexivity]. Qed.
 
 (** trunc / date_trunc: every unit spelling Spark accepts reaches DuckDB in a spelling it reads as the same unit *)
 Definition C17_verdict_trunc_units_statement : Prop :=
